@@ -7,6 +7,7 @@ import re
 import shutil
 import subprocess
 import sys
+import threading
 import time
 
 ROOT = os.path.dirname(os.path.dirname(os.path.abspath(__file__)))
@@ -48,6 +49,7 @@ class Ctx:
         self.unreproduced = []
         self.assumptions = []
         self._kvh = {}
+        self._lock = threading.Lock()
 
     def sub(self, name):
         d = os.path.join(self.work, name)
@@ -62,11 +64,24 @@ class Ctx:
 
     # ---------------------------------------------------------------- harness
     def kvh(self, race=False):
+        with self._lock:
+            return self._kvh_locked(race)
+
+    def _kvh_locked(self, race):
         key = 'race' if race else 'plain'
         if key in self._kvh:
             return self._kvh[key]
         mod = self.sub('hmod-' + key)
-        shutil.copytree(os.path.join(ROOT, 'harness', 'cmd'), os.path.join(mod, 'cmd'), dirs_exist_ok=True)
+        # only integrated harness files (harness/INTEGRATED) plus those named in $VERIF_HARNESS_EXTRA are compiled, so that
+        # files other contributors are still working on cannot break a check
+        src = os.path.join(ROOT, 'harness', 'cmd', 'kvh')
+        with open(os.path.join(ROOT, 'harness', 'INTEGRATED')) as f:
+            keep = set(f.read().split())
+        keep |= set(x for x in os.environ.get('VERIF_HARNESS_EXTRA', '').split(',') if x)
+        os.makedirs(os.path.join(mod, 'cmd', 'kvh'), exist_ok=True)
+        for fn in os.listdir(src):
+            if fn in keep:
+                shutil.copy(os.path.join(src, fn), os.path.join(mod, 'cmd', 'kvh', fn))
         with open(os.path.join(ROOT, 'harness', 'go.mod.tmpl')) as f:
             gm = f.read().replace('@REPO@', REPO)
         with open(os.path.join(mod, 'go.mod'), 'w') as f:
@@ -74,7 +89,11 @@ class Ctx:
         shutil.copy(os.path.join(REPO, 'go.sum'), os.path.join(mod, 'go.sum'))
         out = os.path.join(self.work, 'kvh-' + key)
         cmd = ['go', 'build', '-tags', 'verif'] + (['-race'] if race else []) + ['-o', out, './cmd/kvh']
-        p = subprocess.run(cmd, cwd=mod, env=goenv(), capture_output=True, text=True)
+        for attempt in range(3):
+            p = subprocess.run(cmd, cwd=mod, env=goenv(), capture_output=True, text=True)
+            if p.returncode == 0 or 'requires go >=' not in (p.stdout + p.stderr):
+                break
+            time.sleep(2)       # the offline toolchain switch occasionally fails when several builds start at once
         if p.returncode != 0:
             raise Infra('harness build failed (does /repo compile with -tags verif?):\n' + p.stdout + p.stderr)
         self._kvh[key] = out
@@ -281,3 +300,34 @@ def write_ndjson(path, items):
 
 def action_sig(beh):
     return ' '.join(s.get('a', '?') for s in beh)
+
+
+def validate_batch(ctx, module, cfg, runs, tag, bad_events=('error', 'hang', 'notreached', 'openerror', 'childerror')):
+    """runs: list of event lists (each starting with a reset event).  All runs are concatenated and validated by ONE TLC
+    run; on rejection the high-water mark names the run that could not be explained, which is removed and the rest is
+    validated again.  Returns the indexes of the rejected runs."""
+    rejected = []
+    live = list(range(len(runs)))
+    for i in list(live):
+        if any(e.get('e') in bad_events for e in runs[i]):
+            rejected.append(i)
+            live.remove(i)
+    rounds = 0
+    while live and rounds < 8:
+        rounds += 1
+        lines, owner = [], []
+        for i in live:
+            for e in runs[i]:
+                lines.append(e)
+                owner.append(i)
+        tp = os.path.join(ctx.sub('traces'), f'{tag}-{rounds}.ndjson')
+        write_ndjson(tp, lines)
+        ok, hw, st, out = tlc_trace(ctx, module, cfg, tp, timeout=900, tag=f'{tag}-{rounds}')
+        if ok:
+            break
+        if hw is None or hw < 1 or hw > len(lines):
+            raise Infra('trace validation rejected a batch but reported no position:\n' + out[-2000:])
+        bad = owner[hw - 1]
+        rejected.append(bad)
+        live.remove(bad)
+    return rejected
